@@ -98,6 +98,8 @@ def run_task(task):
                 v = eval_clause(I, contract, cl, env)
                 ctx.assume(I.truth(v))
             old = Namespace(snapshot(env))
+            from .values import fresh_oid
+            ctx.entry_oid = fresh_oid()
             I.top_env = dict(env)
             I.top_env["old"] = old
             args = [inputs[p] for p in params if p in inputs]
@@ -161,10 +163,11 @@ def run_task(task):
                         ctx.obligations.append(Obligation(oid, "ensures", "unknown", 0.0, "z3",
                                                           "no feasible case of the clause on a path not shown infeasible (%s)" % r0,
                                                           None, ctx.path_index, cl.props or contract.props))
+                kind = "bounded" if getattr(cl.fn, "_bounded", None) else "ensures"
                 for extra, v in subs:
                     try:
-                        ctx.oblige(oid, "ensures", B.z_implies(B.z_and(extra), v), tags=cl.props or contract.props,
-                                   assume_after=False)
+                        ctx.oblige(oid, kind, B.z_implies(B.z_and(extra), v), tags=cl.props or contract.props,
+                                   assume_after=False, detail=getattr(cl.fn, "_bounded", None))
                     except PathEnd:
                         pass
 
